@@ -884,4 +884,53 @@ Section MovingLib.
       eapply step_finish; eauto; try congruence.
       apply map_eq_nil in HmU. subst evU. intros e0 [].
   Qed.
+
+  (* ---------------------------------------------------------------- whole histories: C01 *)
+
+  Definition Seen (s : fstate) (seen : list block) : Prop :=
+    forall x, In x seen -> In x U /\ known s x.
+
+  Lemma run_c01 : forall h s Fin S seen, Inv s Fin S -> (forall b, In b h -> In b U) -> Seen s seen ->
+    let t := fk_run cfg s h in
+    length t = length h /\ Forall (fun x => snd x = ROk) t /\
+    (exists S', apply_all (ri r0) S (all_events t) = Some S') /\
+    c01_refeed_b seen h t = true.
+  Proof.
+    induction h as [|b h IH]; intros s Fin S seen HI Hh Hseen.
+    - cbn. repeat split; [constructor | exists S; reflexivity].
+    - destruct (step_inv s Fin S b HI (Hh b (or_introl eq_refl))) as
+        (s' & evA & evI & evS & Fnew & S' & Hstep & Happ & HI' & _ & _ & HsI & HsS & _ & _ & _ & _ & _ & _ & Hk1 & Hk2 & Hk3).
+      cbn [fk_run]. rewrite Hstep.
+      assert (Hseen' : Seen s' (b :: seen)).
+      { intros x [<-|Hx].
+        - split; [apply Hh; left; reflexivity | exact Hk3].
+        - destruct (Hseen x Hx) as [HxU Hkx]. split; [exact HxU | apply Hk2; assumption]. }
+      destruct (IH s' (Fin ++ Fnew) S' (b :: seen) HI' (fun x Hx => Hh x (or_intror Hx)) Hseen') as (Hlen & Hok & (S2 & Happ2) & Hre).
+      assert (Happ' : apply_all (ri r0) S (evA ++ evI ++ evS) = Some S').
+      { rewrite (apply_all_app _ _ _ _ _ Happ). apply apply_all_inert. apply Forall_app. split.
+        - eapply Forall_impl; [|exact HsI]. cbn beta. auto.
+        - eapply Forall_impl; [|exact HsS]. cbn beta. auto. }
+      cbn zeta in *. repeat split.
+      + cbn [length]. rewrite Hlen. reflexivity.
+      + constructor; [reflexivity | exact Hok].
+      + exists S2. unfold all_events. cbn [map concat fst]. fold (all_events (fk_run cfg s' h)).
+        rewrite (apply_all_app _ _ _ _ _ Happ'). exact Happ2.
+      + cbn [c01_refeed_b]. rewrite Hre, andb_true_r.
+        destruct (existsb (block_eqb b) seen) eqn:Hex; [|reflexivity].
+        apply existsb_exists in Hex as (x & Hx & Heq). apply block_eqb_eq in Heq. subst x.
+        destruct (Hseen b Hx) as [_ Hb]. destruct (Hk1 Hb) as (_ & -> & -> & ->). reflexivity.
+  Qed.
+
+  Theorem moving_lib_run h : (forall b, In b h -> In b U) ->
+    let t := fk_run cfg (fs_init (LExcl r0)) h in
+    length t = length h /\ Forall (fun x => snd x = ROk) t /\
+    c01_discipline_b (LExcl r0) t = true /\ c01_refeed_b [] h t = true /\
+    c01_error_b (c_fail_at cfg) 0 t = true.
+  Proof.
+    intros Hh. destruct (run_c01 h (fs_init (LExcl r0)) [] [] [] inv_init Hh) as (Hlen & Hok & (S' & Happ) & Hre).
+    { intros x []. }
+    cbn zeta. repeat split; try assumption.
+    - unfold c01_discipline_b, root_lib. rewrite Happ. reflexivity.
+    - rewrite Hnofail. apply error_ok. exact Hok.
+  Qed.
 End MovingLib.
